@@ -12,6 +12,7 @@ type c04Case struct {
 	Ops  []int `json:"ops"`  // indices into c04Ops
 	Data int   `json:"data"` // index into c04DataMaps
 	Wide bool  `json:"wide,omitempty"`
+	File bool  `json:"file,omitempty"` // the program is a template file rendered twice through Template.String, with renders of another page (which binds the same names) in between
 }
 
 type c04Op struct {
@@ -46,6 +47,10 @@ func c04Ops(wide bool) []c04Op {
 	ops = append(ops, c04Op{"assign(loop,int)", "assign", "loop", VInt})
 	// loops with absent clauses (the body ends with @break, so there is exactly one pass)
 	ops = append(ops, c04Op{"for(;;)", "forbare", "", ""}, c04Op{"for(;x!=nil;)", "forcond", "x", ""})
+	// values taken from other variables (a copy, a postfix step and a loop counter never write through to their source)
+	ops = append(ops, c04Op{"copy(y=x)", "copy", "y", "x"}, c04Op{"copy(x=y)", "copy", "x", "y"},
+		c04Op{"print(x++)", "step", "x", "inc"}, c04Op{"print(y--)", "step", "y", "dec"},
+		c04Op{"for(i=x;up)", "forfrom", "x", "inc"}, c04Op{"for(i=y;down)", "forfrom", "y", "dec"})
 	return ops
 }
 
@@ -70,7 +75,8 @@ func c04DataMaps() []map[string]Val {
 			out = append(out, m)
 		}
 	}
-	out = append(out, map[string]Val{"loop": vInt(1)}, map[string]Val{"x": vNil()}, map[string]Val{"x": vArr(vInt(1))})
+	out = append(out, map[string]Val{"loop": vInt(1)}, map[string]Val{"x": vNil()}, map[string]Val{"x": vArr(vInt(1))},
+		map[string]Val{"x": vFloat(2.5), "y": vFloat(7.5)})
 	return out
 }
 
@@ -123,6 +129,26 @@ func c04Build(cs c04Case, maxDepth int) (tree []*Node, ok bool) {
 			emit(nText("]"))
 		case "assign":
 			emit(nAssign(op.v, c04Value(op.typ, pos)))
+		case "copy":
+			emit(nAssign(op.v, eVar(op.typ)))
+		case "step":
+			emit(nText("[" + op.v + op.typ + "="))
+			emit(nPrint(&Expr{Op: op.typ, Kids: []*Expr{eVar(op.v)}}))
+			emit(nText("]"))
+		case "forfrom":
+			if len(stack) > maxDepth {
+				return nil, false
+			}
+			cmp, off := "<", "+"
+			if op.typ == "dec" {
+				cmp, off = ">", "-"
+			}
+			n := &Node{K: "for", Init: nAssign("i", eVar(op.v)), Cond: eBin(cmp, eVar("i"), eBin(off, eVar(op.v), eLit(vInt(2)))),
+				Post: nPrint(&Expr{Op: op.typ, Kids: []*Expr{eVar("i")}})}
+			emit(nText("("))
+			emit(n)
+			stack = append(stack, frame{node: n, collect: &n.Body})
+			emit(nText("G:"))
 		case "close":
 			if len(stack) == 1 {
 				return nil, false
@@ -208,6 +234,53 @@ func c04Build(cs c04Case, maxDepth int) (tree []*Node, ok bool) {
 	return root, true
 }
 
+// c04WritesCounter: some @for counter is written by an assignment that follows the loop header
+// (such a program may legitimately run forever; it is only skipped when the reference has no verdict).
+func c04WritesCounter(cs c04Case) bool {
+	ops := c04Ops(cs.Wide)
+	counters := map[string]bool{}
+	for _, ix := range cs.Ops {
+		op := ops[ix]
+		switch op.kind {
+		case "for":
+			counters[op.v] = true
+		case "forfrom":
+			counters["i"] = true
+		case "assign", "copy":
+			if counters[op.v] {
+				return true
+			}
+		}
+	}
+	return false
+}
+
+// c04FileOutcome renders src as a page of a loaded directory: another page that binds the names x, y, i, v at its
+// top level is rendered before and between two renders of the page; the first outcome that does not conform is returned.
+func c04FileOutcome(src string, data map[string]Val, exp Expect) Outcome {
+	t := Tree{Dir: "t", Ext: ".tw", Files: map[string]string{"index.tw": src, "leaker.tw": `{{ x = "leak" }}{{ y = 1.5 }}{{ i = "s" }}{{ v = true }}[{{ x }}]`}}
+	t.write()
+	tpl, lo := t.load()
+	if lo.Kind != KOut {
+		return lo
+	}
+	var d1, d2 map[string]any
+	if len(data) > 0 {
+		d1, d2 = dataMap(data), dataMap(data)
+	} else {
+		d2 = map[string]any{} // no data: once as nil, once as an empty map
+	}
+	render(tpl, "leaker", nil)
+	render(tpl, "leaker", map[string]any{})
+	o1 := render(tpl, "index", d1)
+	if good, _ := conforms(exp, o1); !good {
+		return o1
+	}
+	render(tpl, "leaker", d1)
+	render(tpl, "leaker", d2)
+	return render(tpl, "index", d2)
+}
+
 func c04Check(cs c04Case) (ok bool, sig, expected, observed string) {
 	tree, valid := c04Build(cs, 8)
 	if !valid {
@@ -216,9 +289,20 @@ func c04Check(cs c04Case) (ok bool, sig, expected, observed string) {
 	data := c04DataMaps()[cs.Data]
 	src := printNodes(tree)
 	out, st := evalTemplate(tree, data)
+	if refHorizonHit || (st == sUnspec && c04WritesCounter(cs)) {
+		return true, "", "skipped", "skipped" // a loop body rewrites its own counter: the program may not terminate
+	}
 	exp := expectOf(out, st)
-	o := runString(src, dataMap(data))
+	var o Outcome
+	if cs.File {
+		o = c04FileOutcome(src, data, exp)
+	} else {
+		o = runString(src, dataMap(data))
+	}
 	good, why := conforms(exp, o)
+	if cs.File {
+		why += "/template-file"
+	}
 	if good {
 		return true, "", exp.String(), o.String()
 	}
@@ -279,12 +363,29 @@ func c04Run(c *Ctx) {
 					}
 				}
 				nontriv := blocks > 0 && (reads > 0 || assigns > 0)
+				if k <= 2 && !wide {
+					// the same programs as template files (no data / x pre-bound), rendered repeatedly next to another page
+					for _, d := range []int{0, 3} {
+						fc := cs
+						fc.Data, fc.File = d, true
+						c.Trace(fc)
+						if ok, sig, e, ob := c04Check(fc); !ok {
+							c.Report(sig, int64(k)*1000000+order%1000000, fc, e, ob, "")
+						}
+						c.Evals(1)
+						c.Count("template_file_cases", 1)
+					}
+				}
 				for _, d := range datas {
 					cs.Data = d
 					order++
 					c.Trace(cs)
 					data := c04DataMaps()[d]
 					out, st := evalTemplate(tree, data)
+					if refHorizonHit || (st == sUnspec && c04WritesCounter(cs)) {
+						c.Count("skipped_nonterminating_within_horizon", 1)
+						continue
+					}
 					exp := expectOf(out, st)
 					o := runString(src, dataMap(data))
 					c.Evals(1)
@@ -327,7 +428,7 @@ func init() {
 	p := &Property{
 		ID:    "C04",
 		Level: "exploration",
-		Rule: "bounded-exhaustive operation sequences: every well-nested sequence of <=k operations from {assign(x|y, int|str|nil), assign(loop), read(x), read(y), open @if(true), open @if(false), switch to @else, open @each with loop variable x|y|v over int|str elements, open @for with variable x|y|i, close} up to a nesting depth, times every data map that pre-binds x and y to nothing / an int / a string (plus maps with loop, nil and an array); the template prints a marker and the value at every read. " +
+		Rule: "bounded-exhaustive operation sequences: every well-nested sequence of <=k operations from {assign(x|y, int|str|nil), assign(loop), read(x), read(y), open @if(true), open @if(false), switch to @else, open @each with loop variable x|y|v over int|str elements, open @for with variable x|y|i, close} up to a nesting depth, times every data map that pre-binds x and y to nothing / an int / a string (plus maps with loop, nil and an array); the template prints a marker and the value at every read.  [as built: plus copy(y=x), copy(x=y), print(x++), print(y--), for(i=x;up), for(i=y;down) (values taken from other variables never write through), a float data map, and a template-file leg: every sequence of <=2 ops rendered twice through Template.String next to a page binding the same names]" +
 			"The reference keeps a stack of block scopes. Non-trivial: the sequence opens a block and reads or assigns inside/after it",
 		Bounds: func(tier string) map[string]any {
 			if tier == "thorough" {
